@@ -64,6 +64,9 @@ REIF = ["eqr x0 x1 x2", "ner x0 x1 x2", "ltr x0 x1 x2", "ler x0 x1 x2", "gtr x0 
         "blineqr {K},{N} x0,x1 {C} x2", "blinler {K},{N} x0,x1 {C} x2", "blinner {K},{N} x0,x1 {C} x2",
         "lineqr {K} x0 {C} x2", "linler {K},{N} x0,x0 {C} x2", "linner - - {C} x2"]
 LINB = ["blin eq {K},{N} x0,x1 {C}", "blin le {K},{N} x0,x1 {C}", "blin ne {K},{N} x0,x1 {C}", "lin le {K},{N},1 x0,x1,x2 {C}"]
+# array_int_minimum / array_int_maximum / sum_iter (handles or constants)
+ARRAY = ["amin x0,x1", "amin x0,x1,x2", "amin x0", "amin x1,x1", "amax x0,x1", "amax x0,x1,x2", "amax x2",
+         "sumiter x0,x1", "sumiter x0,x1,x2", "sumiter x0", "sumiter -", "sumiter x0,x0", "sumiter c:{K},c:{N}", "sumiter c:{K}"]
 FUNCS = ["felement x0,x1 x2", "fimplies x0 x1", "cumulative x0,x1 2,1 2,2 3", "cumulative x0,x1,x2 1,2,1 2,2,1 3", "cumulative x0,x1 1,1 1,1 3"]
 
 def fill(t, rng=None, grid=False):
@@ -101,9 +104,54 @@ def each_cases(tier, rng, templates, boolish_all=False):
                 cases.append("|".join(tr) + " ; " + call)
     return cases
 
+# ---- element_2d / element_3d / table_2d / table_3d and the array factories: cells come from a factory declaration, the index /
+# value handles follow.  Shapes: rectangular, 1 x n, n x 1, ragged, empty matrix, empty rows; index domains inside, partly outside
+# and wholly outside the valid range, negative values included.
+IDX = ["0..1", "0..2", "-1..1", "-1..2", "1..1", "0..0", "b", "0,2", "2..3", "-2..-1", "1..3"]
+VALD = ["0..2", "1..1", "0,2", "-1..0"]
+MATS4 = ["x0,x1/x2,x3", "x0,x1,x2,x3", "x0/x1/x2/x3", "x0,x1/x2", "x0/x1,x2", "x0/x1,x2/x3", "e/x0,x1", "x0,x1/e", "x0", "-", "e", "e/e",
+         "x0,x1,x2/x3", "x0,x0/x1,x1", "x0,x1/x2,x3/x0,x1"]
+CUBES8 = ["x0,x1/x2,x3//x4,x5/x6,x7", "x0,x1/x2,x3", "x0,x1//x2,x3", "x0//x1//x2", "x0/x1//x2/x3", "x0", "-", "E", "e", "E//x0,x1", "e//x0",
+          "x0,x1/x2,x3//x4,x5", "x0,x1/x2//x3,x4/x5", "x0,x1/x2,x3//x4/x5/x6", "x0,x1,x2//x3,x4,x5", "x0//x1,x2"]
+TUP2 = ["0:1/1:2/2:2", "1:1", "-", "0:0/1:1/2:2/0:2"]
+TUP2_BAD = ["0:1:2/1:2", "1/1:2", "e/0:1", "0:1/e"]
+FACT = ["ints(3,0,2)", "ints(3,2,0)", "ints(0,0,1)", "ints(2,1,1)", "bools(2)", "bools(0)", "ints2d(2,2,0,1)", "ints2d(2,2,1,0)", "ints2d(0,3,0,1)", "ints2d(2,0,0,1)",
+        "bools2d(1,2)", "bools2d(2,1)", "ints3d(1,2,1,-1,1)", "ints3d(2,1,1,3,1)", "ints3d(0,2,2,0,1)", "bools3d(1,1,2)", "bools3d(2,1,1)", "ints(1,-2,-2)|bools(1)|0..1"]
+
+def nd_cases(tier, rng, malformed_only=False):
+    q = tier == "quick"
+    out = []
+    def pick(l, n): return l if (not q or len(l) <= n) else rng.sample(l, n)
+    for mat in MATS4:
+        for cell in pick(["ints2d(2,2,0,1)", "ints(4,0,2)", "0..1|1..2|2..2|0,2"], 2):
+            for r in pick(IDX, 5):
+                for c in pick(IDX, 5):
+                    for v in pick(VALD, 2):
+                        out.append("%s|%s|%s|%s ; call element2d %s x4 x5 x6" % (cell, r, c, v, mat))
+            out.append("%s|0..2 ; call element2d %s x4 x4 x4" % (cell, mat))
+            out.append("%s|0..1 ; call element2d %s x0 x1 x4" % (cell, mat))
+    for cube in CUBES8:
+        for cell in pick(["ints3d(2,2,2,0,1)", "bools(8)", "ints(8,1,2)"], 2):
+            for _ in range(12 if q else 120):
+                d, r, c = rng.choice(IDX), rng.choice(IDX), rng.choice(IDX)
+                out.append("%s|%s|%s|%s|%s ; call element3d %s x8 x9 x10 x11" % (cell, d, r, c, rng.choice(VALD), cube))
+            out.append("%s|0..1 ; call element3d %s x8 x8 x8 x0" % (cell, cube))
+    for mat in MATS4:
+        for cell in ["ints2d(2,2,0,2)", "0..1|1..2|2..2|0,2"]:
+            for t in TUP2 + TUP2_BAD + ["e", "1:1:1:1/0:1:2:0"]:
+                out.append("%s ; call table2d %s %s" % (cell, mat, t))
+    for cube in CUBES8:
+        for t in TUP2 + TUP2_BAD[:2] + ["e", "1/0"]:
+            out.append("ints3d(2,2,2,0,2) ; call table3d %s %s" % (cube, t))
+    for f in FACT:
+        out.append(f)
+        out.append(f + "|0..3 ; call sum x0")
+    return out
+
 def gen_each_lower(tier, rng):
-    return (each_cases(tier, rng, ARITH + GLOBAL + REIF + LINB + FUNCS) + each_cases(tier, rng, BOOLR, boolish_all=True)
-            + each_cases(tier, rng, ["felement x0,x1 x2", "fimplies x0 x1", "cumulative x0,x1 2,1 2,2 3"], boolish_all=True))
+    return (each_cases(tier, rng, ARITH + GLOBAL + REIF + LINB + FUNCS + ARRAY) + each_cases(tier, rng, BOOLR, boolish_all=True)
+            + each_cases(tier, rng, ["felement x0,x1 x2", "fimplies x0 x1", "cumulative x0,x1 2,1 2,2 3"], boolish_all=True)
+            + nd_cases(tier, rng))
 
 def gen_each_solve(tier, rng):
     cs = gen_each_lower(tier, rng)
@@ -112,8 +160,8 @@ def gen_each_solve(tier, rng):
     out = []
     for c in cs:
         r = rng.random()
-        nv = 3
-        e = "enum" if r < 0.75 else "first" if r < 0.85 else "%s x%d" % (rng.choice(["min", "max"]), rng.randrange(nv))
+        nv = 3 if (c.count("|") == 2 and "(" not in c.split(";")[0]) else 0      # factory declarations: the number of handles varies
+        e = "enum" if r < 0.75 else "first" if (r < 0.85 or nv == 0) else "%s x%d" % (rng.choice(["min", "max"]), rng.randrange(nv))
         out.append(c + " ; " + e)
     return out
 
@@ -143,14 +191,41 @@ def rand_prog(rng, maxprod=400, malformed=False):
     for _ in range(rng.randint(1, 4)):
         r = rng.random()
         if r < 0.22:
-            k = rng.choice(["add", "sub", "mul", "mod", "abs", "min", "max", "sum"])
+            k = rng.choice(["add", "sub", "mul", "mod", "abs", "min", "max", "sum", "amin", "amax", "sumiter"])
             if k == "abs": posts.append("call abs " + op())
-            elif k in ("min", "max", "sum"): posts.append("call %s %s" % (k, vl(0 if malformed or k == "sum" else 1, 3)))
+            elif k == "sumiter":
+                n = rng.randint(0, 3)
+                posts.append("call sumiter " + ((",".join("c:%d" % rng.randint(-3, 4) for _ in range(n)) if rng.random() < 0.3 else ",".join(anyv() for _ in range(n))) or "-"))
+            elif k in ("min", "max", "sum", "amin", "amax"): posts.append("call %s %s" % (k, vl(0 if malformed or k == "sum" else 1, 3)))
             else: posts.append("call %s %s %s" % (k, op(), op()))
             kinds.append("i")
         elif r < 0.40:
-            k = rng.choice(["alldiff", "alleq", "element", "aelement", "table", "count", "atleast", "atmost", "exactly", "gcc", "between", "felement"])
+            k = rng.choice(["alldiff", "alleq", "element", "aelement", "table", "count", "atleast", "atmost", "exactly", "gcc", "between", "felement",
+                            "element2d", "element3d", "table2d", "table3d"])
+            def mat(rows=None, cols=None):
+                rows = rng.randint(1, 2) if rows is None else rows
+                cols = rng.randint(1, 2) if cols is None else cols
+                rs = []
+                for _ in range(rows):
+                    w = cols if not (malformed and rng.random() < 0.25) else rng.randint(0, 3)      # ragged / empty rows
+                    rs.append(",".join(anyv() for _ in range(w)) or "e")
+                if malformed and rng.random() < 0.08: return "-"
+                return "/".join(rs)
+            def cube():
+                d, rws, cls = rng.randint(1, 2), rng.randint(1, 2), rng.randint(1, 2)
+                if malformed and rng.random() < 0.08: return "-"
+                return "//".join((mat(rws, cls) if not (malformed and rng.random() < 0.1) else "E") for _ in range(d))
+            def tuples(n):
+                return "/".join(":".join(str(rng.randint(-2, 3)) for _ in range(n if not (malformed and rng.random() < 0.3) else n + 1)) for _ in range(rng.randint(0, 4))) or "-"
             if k in ("alldiff", "alleq"): posts.append("call %s %s" % (k, vl(0, 3)))
+            elif k == "element2d": posts.append("call element2d %s %s %s %s" % (mat(), anyv(), anyv(), anyv()))
+            elif k == "element3d": posts.append("call element3d %s %s %s %s %s" % (cube(), anyv(), anyv(), anyv(), anyv()))
+            elif k == "table2d":
+                cols = rng.randint(1, 2)
+                posts.append("call table2d %s %s" % (mat(None, cols), tuples(cols)))
+            elif k == "table3d":
+                cols = rng.randint(1, 2)
+                posts.append("call table3d %s %s" % ("//".join(mat(rng.randint(1, 2), cols) for _ in range(rng.randint(1, 2))), tuples(cols)))
             elif k == "element": posts.append("call element %s %s %s" % (vl(1, 3), anyv(), anyv()))
             elif k == "aelement": posts.append("call aelement %s %s %s" % (anyv(), vl(1, 3), anyv()))
             elif k == "felement": posts.append("call felement %s %s" % (vl(1, 3), anyv())); kinds.append("i")
@@ -203,19 +278,27 @@ def gen_random_solve(tier, rng):
     n = 20000 if tier == "quick" else 120000
     return [with_entry(rng, *rand_prog(rng)) for _ in range(n)]
 
+N_MALFORMED_FIXED = 33
 def gen_malformed_lower(tier, rng):
     n = 6000 if tier == "quick" else 40000
     fixed = ["0..3|0..3 ; lin eq 1 x0,x1 2", "0..3|0..3 ; blin le 1,2,3 x0,x1 2", "0..3 ; call min -", "0..3 ; call max -",
              "0..3|0..3 ; call table x0,x1 1:2:3", "0..3|0..3|b ; call lineqr 1 x0,x1 2 x2", "0..3|0..3|b ; call linler 1,2,3 x0,x1 2 x2",
              "0..3|0..3 ; call gcc x0,x1 1,2 x0", "0..3|0..3 ; call alldiff x0,x0", "0..3|0..3 ; call mod x0 c:2", "0..3|0..3 ; call mod c:7 x0",
              "0..3|0..3 ; call add c:1 c:2", "0..3|0..3 ; call mul c:1 c:2", "0..3|0..3 ; call element - x0 x1", "0..3 ; new eq(x0,7) ; call abs x0",
-             "0..3 ; new eq(x0,7) ; call min x0", "0..3|b ; new eq(x0,7) ; call sum x0,x1"]
+             "0..3 ; new eq(x0,7) ; call min x0", "0..3|b ; new eq(x0,7) ; call sum x0,x1",
+             "0..3 ; call amin -", "0..3 ; call amax -", "0..3 ; new eq(x0,7) ; call amin x0", "0..3|b ; new eq(x0,7) ; call sumiter x0,x1",
+             "0..3|0..3|0..1 ; call table2d x0,x1/x1,x0 1:2:3", "0..3|0..3|0..1 ; call table2d x0,x1/x2 1:2", "0..3|0..3 ; call table3d x0,x1//x1 1:2/0",
+             "0..3|0..3|-1..2|-1..2 ; call element2d - x2 x3 x0", "0..3|0..3|-1..2|-1..2 ; call element2d e/x0,x1 x2 x3 x0",
+             "0..3|0..3|-1..2|-1..2 ; call element2d x0,x1/x1 x2 x3 x0", "0..3|0..3|-3..-1|0..1 ; call element2d x0,x1/x1,x0 x2 x3 x0",
+             "0..3|0..3|-1..2 ; call element3d - x2 x2 x2 x0", "0..3|0..3|-1..2 ; call element3d E//x0,x1 x2 x2 x2 x0", "0..3|0..3|-1..2 ; call element3d e//x0,x1 x2 x2 x2 x0",
+             "0..3|0..3|-1..2 ; call element3d x0,x1/x1//x0 x2 x2 x2 x0", "0..3 ; new eq(x0,7) ; call element2d x0,x0/x0,x0 x0 x0 x0"]
+    assert len(fixed) == N_MALFORMED_FIXED
     return fixed + [rand_prog(rng, maxprod=5000, malformed=True)[0] for _ in range(n)]
 
 def gen_malformed_solve(tier, rng):
     n = 6000 if tier == "quick" else 40000
     out = []
-    for c in gen_malformed_lower("quick", random.Random(rng.random()))[:17]:
+    for c in gen_malformed_lower("quick", random.Random(rng.random()))[:N_MALFORMED_FIXED]:
         for e in ("enum", "first"): out.append(c + " ; " + e)
     return out + [with_entry(rng, *rand_prog(rng, malformed=True)) for _ in range(n)]
 
